@@ -90,7 +90,7 @@ DTYPES = ['float32', 'int32', 'int16']        # besides float64; integer maps ca
 INT_OK = {'int32': ('mixed', 'pos', 'neg', 'const', 'zero', 'outlier', 'sag1e7', 'sag3.5e7', 'sag3e8'),
           'int16': ('mixed', 'pos', 'neg', 'const', 'zero')}
 FORM_V_QUICK = ('mixed', 'pos', 'zero', 'huge', 'sag3e8')   # quick tier: argument forms on these value classes, every shape and NaN pattern
-WVLS = [0.6328, 1.55]
+WVLS = [0.6328, 1.55, 10.6]          # HeNe, telecom, CO2 (microns): a value above 10 is still microns
 # memory layout of the array handed to a writer (besides 'C': a fresh C-ordered array).  The writers return nothing, so the
 # hygiene layer's Fortran-order / strided variants cannot see them: the layout is an explicit alphabet axis here.
 LAYOUTS = ['F', 'T', 'strided', 'neg', 'rowpad', 'readonly', 'swapped']
